@@ -182,7 +182,7 @@ def gen_str(r):
     # a document built so that tokens exist as keys / indices
     toks = []
     for _ in range(r.between(0, 4)):
-        t = r.choice(TOKENS)
+        t = r.choice(TOKENS + (["x/y", "a/1", "/"] if delim != "/" else []))
         if delim in t:
             t = t.replace(delim, "_")
         if delim == "." and "." in t:
@@ -314,11 +314,14 @@ def body_rule(case):
         out.label(f"dim:{f}")
     out.sample = f"{show(spec,450)}"
     try:
+        # both documented entry points of a rule spec
         parsed = parse(ns.r.Rule.from_spec, spec)
+        parsed_j = parse(ns.r.Rule.from_json_like, spec)
     except Exception as e:
         out.exc("parse-rule", e)
         return out
     check_rule_obj(out, parsed, rl, doc, spec, "rule")
+    eq_both(out, parsed_j, parsed, "rule-equal", "from_json_like", f"Rule.from_json_like({show(spec,250)}) = {show(parsed_j,200)} but from_spec gives {show(parsed,200)}")
     return out
 
 
